@@ -420,10 +420,13 @@ pub fn container(allow_fastq: bool) -> BoxedStrategy<Container> {
     } else {
         fasta.boxed()
     };
+    // cut = 0 gives an empty member (the bgzip end-of-file block; `cat a.fa.gz b.fa.gz` of bgzip
+    // files puts one in the middle), cut = 65535 a member taking all the remaining bytes
+    let member = || (prop_oneof![8 => any::<u16>(), 2 => Just(0u16), 1 => Just(65535u16)], any::<bool>()).prop_map(|(cut, stored)| GzMember { cut, stored });
     let gz = prop_oneof![
         3 => Just(None),
-        1 => vec((any::<u16>(), any::<bool>()).prop_map(|(cut, stored)| GzMember { cut, stored }), 1..=1).prop_map(Some),
-        2 => vec((any::<u16>(), any::<bool>()).prop_map(|(cut, stored)| GzMember { cut, stored }), 2..=5).prop_map(Some),
+        1 => vec(member(), 1..=1).prop_map(Some),
+        2 => vec(member(), 2..=5).prop_map(Some),
     ];
     (fmt, prop::bool::weighted(0.25), prop::bool::weighted(0.75), gz, 0u8..6)
         .prop_map(|(format, crlf, final_newline, gz, suffix)| Container {
